@@ -57,6 +57,7 @@ const (
 // zzRefWalk: plain recursive reference traversal producing the expected event
 // list under a policy (action at event index).
 type zzRefWalker struct {
+	keys    KeyMap // nil = the default QueryDocumentKeys
 	events  []zzEv
 	parents []ast.Node // enclosing node per enter event
 	policy  map[int]int
@@ -78,7 +79,11 @@ func (w *zzRefWalker) walk(node ast.Node, key interface{}, path []interface{}, e
 		return
 	}
 	v := reflect.ValueOf(node).Elem()
-	for _, k := range QueryDocumentKeys[node.GetKind()] {
+	keys := w.keys
+	if keys == nil {
+		keys = QueryDocumentKeys
+	}
+	for _, k := range keys[node.GetKind()] {
 		f := v.FieldByName(k)
 		if !f.IsValid() {
 			continue
@@ -272,5 +277,48 @@ func ZZ_C14_parallel() {
 	Visit(doc, VisitInParallel(v1, v2), nil)
 	zzCheckAgainst(r1, g1, q1, "parallel visitor 1")
 	zzCheckAgainst(r2, g2, q2, "parallel visitor 2")
+	zzCover("end")
+}
+
+
+// zzSelectionsOnly: a caller-supplied key map that descends through
+// definitions, selection sets and fields only.
+var zzSelectionsOnly = KeyMap{
+	"Document":            []string{"Definitions"},
+	"OperationDefinition": []string{"SelectionSet"},
+	"FragmentDefinition":  []string{"SelectionSet"},
+	"SelectionSet":        []string{"Selections"},
+	"Field":               []string{"SelectionSet"},
+	"InlineFragment":      []string{"SelectionSet"},
+	"FragmentSpread":      []string{},
+}
+
+// ZZ_C14_keymaps: traversals with a caller-supplied key map and with the
+// default one, in either order within one process, each visit exactly the
+// nodes their own key map reaches.
+func ZZ_C14_keymaps() {
+	di := zzChoice("doc", len(zzDocs))
+	if di == 1 {
+		di = 0 // the type-system document has nothing the custom key map reaches
+	}
+	doc := zzParseDoc(zzDocs[di])
+	order := zzChoice("order", 2)
+	form := zzChoice("form", 3)
+	for round := 0; round < 3; round++ {
+		var keys KeyMap
+		if (round+order)%2 == 0 {
+			keys = zzSelectionsOnly
+		}
+		ref := &zzRefWalker{policy: map[int]int{}, keys: keys}
+		ref.walk(doc, nil, nil, nil)
+		var got []zzEv
+		var params []VisitFuncParams
+		Visit(doc, zzMakeVisitor(form, map[int]int{}, &got, &params), keys)
+		what := "Visit with the default key map"
+		if keys != nil {
+			what = "Visit with a caller-supplied key map"
+		}
+		zzCheckAgainst(ref, got, params, what)
+	}
 	zzCover("end")
 }
